@@ -126,6 +126,11 @@ def gen_cfg(rng, quick=True):
     else:
         c['faults'] = []
     c['faultkind'] = fk
+    # display names different from the database phase names (parameter-object constructor), other calling conventions of the setters
+    if rng.random() < 0.3:
+        c['names'] = ['%s / display %d' % (ph, i) for i, ph in enumerate(phases)]
+    if rng.random() < 0.3:
+        c['conv'] = str(rng.choice(['int', 'tuple', 'array', 'npscalar', 'zerod']))
     return c
 
 
@@ -201,6 +206,44 @@ def _worker(args):
     r.pop('log', None)
     r['wall'] = time.time() - t
     return r
+
+
+def _scen_worker(args):
+    kind, cfgs = args
+    try:
+        return R.scenario(kind, cfgs)
+    except Exception as e:
+        import traceback
+        return [('harness', 'harness', 'scenario %s: %s: %s %s' % (kind, type(e).__name__, e, traceback.format_exc()[-400:]))]
+
+
+def scenario_sets(quick):
+    """(a) equivalence classes: the same physical configuration given through the other constructor with display names that differ
+    from the database phase names, and through other calling conventions of the public setters - all runs of a class must record
+    identical histories; (b) backend-internal equilibrium failures on the pycalphad-backed ternary system (first equilibria, single
+    later ones, bursts), each on a fresh backend object; (c) one object run, reset() and run again; two objects advanced alternately"""
+    classes = []
+    for bn in ('binary', 'binary2', 'ternary', 'ternary-rk4', 'alzr', 'nicral'):
+        base = dict(BASES[bn], faults=[], name='equiv:%s:plain' % bn)
+        if bn in ('alzr', 'nicral'):
+            base['fresh_backend'] = True
+        members = [base, dict(base, names=['%s (display %d)' % (ph, i) for i, ph in enumerate(base['phases'])], name='equiv:%s:display-names' % bn)]
+        for cv in (('int', 'tuple', 'array', 'npscalar', 'zerod') if bn in ('binary', 'ternary') or not quick else ('tuple', 'npscalar')):
+            members.append(dict(base, conv=cv, name='equiv:%s:conv-%s' % (bn, cv)))
+        members.append(dict(base, names=list(members[1]['names']), faults=[['df', 3]], name='equiv:%s:display-names+fault' % bn, noequiv=True))
+        classes.append(members)
+    eq = []
+    N = dict(BASES['nicral'], maxsteps=40, faults=[])
+    for k in list(range(0, 12)) + list(range(12, 120, 5 if quick else 2)):
+        eq.append(dict(N, eqfaults=[k], name='eqfault:single@%d' % k))
+    for burst in ([0, 1, 2], list(range(0, 8)), list(range(41, 47)), list(range(20, 31)), list(range(3, 120, 4)), list(range(60, 100))):
+        eq.append(dict(N, eqfaults=burst, name='eqfault:burst@%d+%d' % (burst[0], len(burst))))
+    B = dict(BASES['binary'], segments=[20.0, 20.0], minDtFrac=1e-3, faults=[])
+    T = dict(BASES['ternary'], segments=[15.0, 25.0], minDtFrac=1e-3, faults=[])
+    B2 = dict(BASES['binary2'], segments=[4.0, 2.0], minDtFrac=1e-3, faults=[])
+    scen = [('rerun', [B]), ('rerun', [T]), ('rerun', [B2]), ('interleave', [B, T]), ('interleave', [B, dict(B, x0=3e-2, gammas=[0.13])]),
+            ('interleave', [dict(B2, names=['one', 'two']), B2])]
+    return classes, eq, scen
 
 
 def run_many(cfgs, snapshots=False, workers=12):
@@ -495,13 +538,15 @@ def run(ctx):
     # ---- 1. search: corpus, enumerated single faults, random configurations -----------------------------------------
     corpus = corpus_cfgs()
     enum = enumerated_faults(quick)
-    nrand = 120 if quick else 900
+    nrand = 100 if quick else 900
     rand = []
     for i in range(nrand):
         c = gen_cfg(ctx.rng, quick)
         c['name'] = 'random:%d' % i
         rand.append(c)
-    cfgs = corpus + enum + rand
+    classes, eqcfgs, scen = scenario_sets(quick)
+    class_cfgs = [c for cl in classes for c in cl]
+    cfgs = corpus + enum + rand + class_cfgs + eqcfgs
     t_ = time.time()
     results = run_many(cfgs, snapshots=False)
     tm['search_runs'] = round(time.time() - t_, 1)
@@ -523,6 +568,28 @@ def run(ctx):
             ctx.sample({'cfg': {k: c[k] for k in ('sys', 'phases', 'x0', 'T', 'iterator', 'segments') if k in c}, 'faults': c.get('faults', [])[:4],
                         'steps': r['steps'], 'end_time': r.get('final', {}).get('t'), 'max_volFrac': r.get('final', {}).get('maxfv')})
     ctx.notes['steps_checked'] = int(sum(r['steps'] for r in results))
+    # equivalence classes: identical histories for every way of giving the same configuration
+    byname = {c.get('name'): (c, r) for c, r in zip(cfgs, results)}
+    neq = 0
+    for cl in classes:
+        c0, r0 = byname[cl[0]['name']]
+        for cm in cl[1:]:
+            c1, r1 = byname[cm['name']]
+            if cm.get('noequiv') or r0.get('digest') is None or r1.get('digest') is None:
+                continue
+            neq += 1
+            if r1['digest'] != r0['digest']:
+                cls = 'display name differs from phase name' if cm.get('names') else 'calling convention of the setters'
+                found.setdefault(('configuration_equivalent', cls), []).append((cm, r1, 'run %s records %r, the same configuration given plainly records %r' % (
+                    cm['name'], r1.get('summary'), r0.get('summary'))))
+    ctx.notes['equivalence_pairs_compared'] = neq
+    ctx.notes['backend_internal_failures_injected'] = int(sum(r.get('eq_dropped', 0) for r in results))
+    with ProcessPoolExecutor(max_workers=6) as ex:
+        sres_ = list(ex.map(_scen_worker, scen, chunksize=1))
+    for (kind, scfgs), viol in zip(scen, sres_):
+        ctx.count({'scenario': kind, 'cfgs': [cfg_key(c) for c in scfgs]}, True)
+        for v in viol:
+            found.setdefault((v[0], v[1]), []).append((dict(scfgs[0], scenario=kind, scenario_cfgs=[cfg_key(c) for c in scfgs], name='scenario:' + kind), {'steps': 0}, v[2]))
     for (clause, cls), lst in sorted(found.items()):
         # prefer a corpus input as the replay, else minimise the first one
         lst.sort(key=lambda t: (0 if str(t[0].get('name', '')).startswith('corpus:') else 1, len(t[0].get('faults', [])), t[1]['steps']))
@@ -544,7 +611,7 @@ def run(ctx):
 
     # ---- 3. correspondence on recorded steps and calls -------------------------------------------------------------
     snap_cfgs = [dict(c) for c in SNAP_CFGS]
-    nsn = 6 if quick else 40
+    nsn = 4 if quick else 40
     k = 0
     while k < nsn:
         c = gen_cfg(ctx.rng, quick)
@@ -718,9 +785,22 @@ def replay(ctx, obj):
     if cfg is None:
         print('replay: no configuration in the replay file (kind %s)' % obj.get('kind'))
         return 1
+    want = (obj.get('clause'), (obj.get('signature') or {}).get('cls'))
+    if cfg.get('scenario'):
+        vs = _scen_worker((cfg['scenario'], cfg['scenario_cfgs']))
+        for v in vs:
+            print('replay: %s / %s: %s' % tuple(v))
+        hit = [v for v in vs if (v[0], v[1]) == want]
+        print('replay: scenario %s, %d violation classes, %d matching the recorded one' % (cfg['scenario'], len(vs), len(hit)))
+        return 1 if hit else 0
     r = _worker((cfg, False))
     vs = violations_of(cfg, r)
-    want = (obj.get('clause'), (obj.get('signature') or {}).get('cls'))
+    if want[0] == 'configuration_equivalent':
+        plain = {k: v for k, v in cfg.items() if k not in ('names', 'conv')}
+        r0 = _worker((plain, False))
+        same = r.get('digest') is not None and r.get('digest') == r0.get('digest')
+        print('replay: as given %r; given plainly %r; identical histories: %s' % (r.get('summary'), r0.get('summary'), same))
+        return 0 if same else 1
     for v in vs:
         print('replay: %s / %s: %s' % v)
     hit = [v for v in vs if (v[0], v[1]) == want] if want[0] else vs
